@@ -231,11 +231,60 @@ def r7_once(ctx):
         if c.kind == "variant" and is_call_term(c.term, "Option::<T>::take", "::take"):
             some += c.edges_for("Some")
     ok = ok and bool(some) and cfg.edges_dominate(some, sn[0].bb)
+    # nothing may short-circuit the resolution: every path through notify_synack reaches the take()
+    if tk:
+        allp, p = cfg.must_pass([0], body.return_blocks(), via_blocks=[tk[0].bb])
+        ctx.ob("R10.7", "notify_synack:always-reaches-take", allp, tk[0].site, "every path through notify_synack takes the pending-open slot" if allp else
+               "notify_synack can return without looking at the pending-open slot (an early return ahead of the take): close() marks a stream closed before it notifies, so a guard such as `if self.is_closed() { return }` "
+               "swallows the session-closed outcome and the open waits for its full timeout", path=None if allp else render_path(body, p))
     ctx.ob("R10.7", "notify_synack:take-under-lock", ok, sn[0].site if sn else "", "lock(synack_tx) -> take() -> send on the Some edge: the first outcome consumes the sender, later ones find None" if ok else
            "notify_synack does not resolve the one-shot through take() under the slot's lock: an open can be completed twice or not at all")
 
 
+def r8_version_independent_of_padding(ctx):
+    """the server records the peer's protocol version (which decides whether it ever answers opens) and sends ServerSettings
+    whatever the outcome of the padding-md5 comparison"""
+    body = co(ctx, "R10.8", S + "handle_frame")
+    if body is None:
+        return
+    cfg, conds, o = ctx.cfg(body), ctx.conds(body), ctx.origins(body)
+    from .common import atomic_method
+    st = [c for c in body.calls() if atomic_method(c) == "store" and var_name(o.of_operand(c.args[0])) == "self.peer_version"]
+    sw, arms = None, None
+    from . import C02
+    sw, arms = C02.arm_regions(ctx, body)
+    if not arms or "Settings" not in arms:
+        ctx.missing("R10.8", "Settings arm")
+        return
+    own = arms["Settings"][1]
+    st = [c for c in st if c.bb in own]
+    ss = []
+    for c in calls_norm(body, "Session::write_frame", "Session::write_control_frame"):
+        t = o.of_operand(c.args[1])
+        if c.bb in own and any(isinstance(s_, tuple) and s_[0] == "agg" and s_[2] == "ServerSettings" for s_ in subterms(t)):
+            ss.append(c)
+    if not ctx.floor("R10.8", "peer_version store / ServerSettings write in the Settings arm", min(len(st), len(ss)), 1):
+        return
+    md5 = [c for c in conds.all() if c.block in own and ((c.kind == "bool" and "padding-md5" in fmt(c.term) and is_call_term(c.term, "::ne", "::eq")) or (c.kind == "variant" and is_call_term(c.term, "StringMap::get") and "padding-md5" in fmt(c.term)))]
+    if not md5:
+        ctx.missing("R10.8", "padding-md5 tests in the Settings arm")
+        return
+    bad = []
+    for c in md5:
+        for s_, vals in c.by_succ.items():
+            reach = cfg.reach([s_])
+            for tgt in st + ss:
+                if tgt.bb not in reach:
+                    bad.append((c, vals, tgt))
+    ok = not bad
+    ctx.ob("R10.8", "Settings-arm:version-handling-on-every-md5-outcome", ok, st[0].site,
+           "storing peer_version and sending ServerSettings are reachable from every outcome of the padding-md5 tests" if ok else
+           "when the padding-md5 test takes its `%s` edge the server never reaches `%s`: peer_version stays 0, so the handler (which answers only v>=2 peers) never sends a SYNACK on that session and every open "
+           "times out although the target was reached" % (bad[0][1], bad[0][2].norm.split("::")[-1]))
+
+
 def run(ctx):
+    r8_version_independent_of_padding(ctx)
     r1_r2_server(ctx)
     r3_client_arm(ctx)
     r4_client_wait(ctx)
